@@ -9,8 +9,10 @@ import (
 
 	"github.com/MixinNetwork/mixin/common"
 	"github.com/MixinNetwork/mixin/crypto"
+	"github.com/MixinNetwork/mixin/storage"
 	"github.com/MixinNetwork/mixin/verifgen"
 	"github.com/MixinNetwork/mixin/verifkit"
+	"github.com/MixinNetwork/mixin/verifledger"
 )
 
 // vC11View renders every historical view of a node at q into one comparable text.
@@ -180,6 +182,7 @@ func vC11Custodian(t *testing.T, r *verifkit.Run) {
 	updates := r.N(3, 8)
 	var times []uint64
 	answers := map[uint64]string{}
+	reader := func(q uint64) (*common.CustodianUpdateRequest, error) { return f.node.persistStore.ReadCustodian(q) }
 	record := func(phase string) {
 		var qs []uint64
 		for _, ts := range times {
@@ -188,7 +191,7 @@ func vC11Custodian(t *testing.T, r *verifkit.Run) {
 		qs = append(qs, f.net.Epoch+1, f.net.Epoch+2, f.cursor+uint64(time.Hour))
 		rng.Shuffle(len(qs), func(i, j int) { qs[i], qs[j] = qs[j], qs[i] })
 		for _, q := range qs {
-			cur, err := f.node.persistStore.ReadCustodian(q)
+			cur, err := reader(q)
 			if err != nil {
 				r.Count("custodian_read_errors", 1)
 				continue
@@ -210,7 +213,7 @@ func vC11Custodian(t *testing.T, r *verifkit.Run) {
 				cur.Nodes[0].Payee.PublicSpendKey[0] ^= 0xff
 				cur.Custodian.PublicSpendKey[0] ^= 0xff
 				cur.Nodes = cur.Nodes[:1]
-				again, _ := f.node.persistStore.ReadCustodian(q)
+				again, _ := reader(q)
 				if vC11Dump(again) != d {
 					r.Violation("C11|custodian|aliased-cache-state", "mutating a returned custodian object changed the next answer for the same timestamp", map[string]any{"timestamp": q})
 				}
@@ -263,6 +266,21 @@ func vC11Custodian(t *testing.T, r *verifkit.Run) {
 		t.Fatalf("restart: %v", err)
 	}
 	record("fresh-store-handle")
+	// a store handle nobody has read from yet (no node set up on it): every record is parsed for the first time
+	// by these lookups, whose results are then edited
+	f.stop()
+	cold, err := storage.NewBadgerStore(verifledger.NewCustom(f.net.Signers[f.self].PrivateSpendKey), f.dir)
+	if err != nil {
+		t.Fatalf("cold store handle: %v", err)
+	}
+	reader = func(q uint64) (*common.CustodianUpdateRequest, error) { return cold.ReadCustodian(q) }
+	record("cold-store-handle")
+	record("cold-store-handle-again")
+	_ = cold.Close()
+	if err := f.boot(); err != nil {
+		t.Fatalf("reboot: %v", err)
+	}
+	reader = func(q uint64) (*common.CustodianUpdateRequest, error) { return f.node.persistStore.ReadCustodian(q) }
 	if r.Counter("custodian_updates_finalized") < 2 {
 		r.Inconclusive("fewer than 2 custodian updates finalized")
 	}
